@@ -476,6 +476,20 @@ def run(chk):
 
     chk.oracle('residue_masses_vs_reference', list(res_ref), o_residue)
 
+    # call history: library routes that work on parsed formula / composition objects (a result of mass() must not depend on
+    # what was computed before): isotope substitution given a formula TEXT, compositions of the same formula modifications
+    from peptacular.chem import chem_calc as _cc
+    hist = [f.split(':', 1)[1] for f in cm.FORMULAS] + ['C2H2O', 'C2H3NO', 'H2O', 'HPO3', 'CH2']
+    for txt in hist:
+        for labs in (['13C'], ['15N', 'D'], ['18O']):
+            try:
+                _cc.apply_isotope_mods_to_composition(txt, labs)
+                _cc.mod_comp('Formula:' + txt)
+                chem_util.chem_mass(txt)
+            except Exception:  # noqa
+                pass
+    chk.count('history_calls_before_oracle', len(hist) * 3)
+
     # ------------------------------------------------------------------ oracle 2: mass = specification sum over the NIST reference
     budget = (1200 if tier == 'quick' else 20000) * (3 if chk.broken() else 1)
     ocases = [c for c in corpus if in_domain(*c)]
@@ -520,6 +534,24 @@ def run(chk):
         for mono in (True, False):
             ocases.append((_PA(_sequence='PEPTIDE', _charge=2, _charge_adducts=[_Mod(pair, 1)]), {'monoisotopic': mono}))
             ocases.append((_PA(_sequence='PEPTIDE'), {'monoisotopic': mono, 'charge_adducts': pair}))
+    # a global rule together with the SAME modification written explicitly on some of its target residues (search-engine style
+    # output): both count - "each modification's mass times its multiplier, wherever it is written"
+    for _ in range(80 if tier == 'quick' else 2500):
+        t = rng.choice(cm.RES22)
+        n = rng.randint(2, 9)
+        sq = [rng.choice(cm.RES22) for _ in range(n)]
+        for pos in rng.sample(range(n), rng.randint(1, min(3, n))):
+            sq[pos] = t
+        v = cm.gen_value(rng, ['num', 'named', 'formula', 'unimod'])
+        mult = rng.choice([1, 1, 2])
+        vs = ('+' if isinstance(v, (int, float)) and v > 0 and rng.random() < 0.5 else '') + str(v)
+        a = _PA(_sequence=''.join(sq), _static_mods=[_Mod(f'[{vs}]' + (f'^{mult}' if mult > 1 else '') + f'@{t}', 1)])
+        tpos = [i for i, c in enumerate(sq) if c == t]
+        d = {}
+        for i in rng.sample(tpos, rng.randint(1, len(tpos))):
+            d[i] = [_Mod(v, mult)] + ([_Mod(rng.choice([1.5, 'Methyl']), 1)] if rng.random() < 0.3 else [])
+        a._internal_mods = d
+        ocases.append((a, {'monoisotopic': rng.random() < 0.5, **({'charge': rng.randint(0, 3)} if rng.random() < 0.5 else {})}))
     # formula modifications with repeated elements / isotopes at every kind of position
     for fm in [f for f in cm.FORMULAS] + [cm.gen_formula(rng) for _ in range(60 if tier == 'quick' else 2000)]:
         pos = rng.choice(['n', 'c', 'i', 'u', 'l', 's', 'v'])
@@ -615,6 +647,90 @@ def run(chk):
 
     chk.oracle('label_path_loss_and_precision', lcases, o_label, key_fn=lambda c: json.dumps(obj_of(*c), sort_keys=True), max_report=50)
     _attach_cases(chk, 'label_path_loss_and_precision', lcases, o_label)
+
+    # ------------------------------------------------------------------ oracle 5: call sequences (no state may leak between calls)
+    from peptacular.chem import chem_calc as _cc2
+    seq_cases = []
+    for _ in range(120 if tier == 'quick' else 3000):
+        v = cm.gen_value(rng, ['formula', 'formula', 'glycan', 'named', 'unimod', 'num'])
+        a = _PA(_sequence=''.join(rng.choice(cm.RES22) for _ in range(rng.randint(1, 8))))
+        m = [_Mod(v, rng.choice([1, 1, 2]))]
+        pos = rng.choice(['n', 'c', 'i', 'u', 'l', 's'])
+        if pos == 'n':
+            a._nterm_mods = m
+        elif pos == 'c':
+            a._cterm_mods = m
+        elif pos == 'i':
+            a._internal_mods = {rng.randint(0, len(a._sequence) - 1): m}
+        elif pos == 'u':
+            a._unknown_mods = m
+        elif pos == 'l':
+            a._labile_mods = m
+        else:
+            vs = ('+' if isinstance(v, (int, float)) and v > 0 else '') + str(v)
+            a._static_mods = [_Mod(f'[{vs}]@{rng.choice(a._sequence)}', 1)]
+        seq_cases.append((a, {'monoisotopic': rng.random() < 0.5, **({'charge': rng.randint(1, 3)} if rng.random() < 0.5 else {})}, v))
+    sq_lines = [cm.line('spec_mass', a, kw, overrides=spec_overrides(a, kw, nuc, avg), prefix=('nist',)) for a, kw, _ in seq_cases]
+    sq_ref = dict(zip(map(id, seq_cases), chk.driver(DRV, sq_lines)))
+
+    def _spoil(d):
+        if isinstance(d, dict):
+            for k in list(d):
+                d[k] = 999
+            d['Xx'] = 1
+        elif isinstance(d, tuple):
+            for x in d:
+                _spoil(x)
+        elif isinstance(d, list):
+            d.append('junk')
+
+    def o_sequence(c):
+        a, kw, v = c
+        mono = kw['monoisotopic']
+        first = pt.mass(a.copy(), **kw)
+        calls = [lambda: mass_calc.mod_mass(v, True), lambda: mass_calc.mod_mass(v, False), lambda: _cc2.mod_comp(v),
+                 lambda: pt.comp(a.copy()), lambda: pt.comp_mass(a.copy()), lambda: pt.comp_mass(a.copy(), 'b', 1),
+                 lambda: pt.mass(a.copy(), monoisotopic=not mono), lambda: pt.mass(a.copy(), isotope_mods=['13C', '15N', 'D']),
+                 lambda: pt.mass(a.copy(), isotope_mods=['13C'], use_isotope_on_mods=True),
+                 lambda: pt.mz(a.copy(), charge=2, monoisotopic=not mono),
+                 lambda: pt.fragment(a.copy(), ['b', 'y'], [1], monoisotopic=not mono, return_type='mass')]
+        if isinstance(v, str) and ':' in v:
+            body = v.split(':', 1)[1]
+            if v.lower().startswith('formula:'):
+                calls += [lambda: chem_util.parse_chem_formula(body), lambda: chem_util.chem_mass(body),
+                          lambda: _cc2.apply_isotope_mods_to_composition(body, ['13C']),
+                          lambda: _cc2.apply_isotope_mods_to_composition(body, ['15N', 'D', '18O'])]
+            if v.lower().startswith('glycan:'):
+                calls += [lambda: pt.glycan_comp(body), lambda: _cc2.glycan_to_chem(body), lambda: mass_calc.glycan_mass(body)]
+        for f in calls:
+            try:
+                _spoil(f())
+            except Exception:  # noqa
+                pass
+        again = pt.mass(a.copy(), **kw)
+        if again != first:
+            return f'mass() answered {first!r} first and {again!r} after other calls on the same modification {v!r}'
+        ref = sq_ref[id(c)]
+        if ref.startswith('ok '):
+            tol = 1e-5 if mono else 2e-3
+            if abs(again - float(ref[3:])) > tol:
+                return f'after a call sequence mass = {again!r}, specification sum over the NIST reference = {float(ref[3:])!r}'
+            z = kw.get('charge')
+            if z:
+                mzv = pt.mz(a.copy(), **kw)
+                if abs(mzv - float(ref[3:]) / z) > tol:
+                    return f'after a call sequence mz = {mzv!r}, reference {float(ref[3:]) / z!r}'
+        return None
+
+    chk.oracle('call_sequences_no_state_leak', seq_cases, o_sequence, key_fn=lambda c: json.dumps(obj_of(c[0], c[1]), sort_keys=True),
+               max_report=20)
+    for f in chk.failures:
+        if f['oracle'] == 'call_sequences_no_state_leak' and not isinstance(f['case'], dict):
+            for c in seq_cases:
+                if repr(c) == f['case']:
+                    f['case'] = obj_of(c[0], c[1])
+                    f['function'] = 'peptacular.mass after mod_mass / mod_comp / chem_mass / apply_isotope_mods_to_composition / comp / comp_mass'
+                    break
 
     # ------------------------------------------------------------------ oracle 4: labelled precursor = unlabelled reference + n(E)*(m(L)-m(E))
     rf = chk.driver(DRV, ['table\tspec_residues'])[0]
